@@ -12,7 +12,7 @@ from flipjump.fjm import fjm_reader
 from flipjump.interpreter.debugging.user_queries import ask_for_command, show_message
 from flipjump.utils.classes import RunStatistics
 from flipjump.utils.constants import MACRO_SEPARATOR_STRING
-from flipjump.utils.exceptions import FlipJumpException
+from flipjump.utils.exceptions import FlipJumpException, FlipJumpRuntimeMemoryException
 from flipjump.utils.functions import load_debugging_labels
 
 
@@ -216,9 +216,19 @@ class BreakpointHandler:
         @return the message box body for the debug-action query, for the current ip.
         """
         address = self.get_address_str(ip)
-        flip = self.get_address_str(mem.get_word(ip))
-        jump = self.get_address_str(mem.get_word(ip + mem.memory_width))
+        flip = self._get_word_address_str(ip, mem)
+        jump = self._get_word_address_str(ip + mem.memory_width, mem)
         return f'Address {address}.\n\n{op_counter} ops executed.\n\nflip {flip}.\n\njump {jump}.'
+
+    def _get_word_address_str(self, word_bit_address: int, mem: fjm_reader.Reader) -> str:
+        """
+        @return: get_address_str() of the word at word_bit_address. pausing must never end the run, so a word
+        that lies outside the memory segments is shown as unreadable (the op itself will fail when it runs).
+        """
+        try:
+            return self.get_address_str(mem.get_word(word_bit_address))
+        except FlipJumpRuntimeMemoryException:
+            return f"?? (can't read the word at {hex(word_bit_address)} - it's outside the memory segments)"
 
     def handle_read_memory(self, target: str, mem: fjm_reader.Reader) -> None:
         """
